@@ -69,7 +69,7 @@ func init() {
 			len(c07Patterns), len(c07OpMasks), c07Exhaustive()) +
 			"non-trivial = a fault changed the message flow (a dropped or duplicated exchange carried >= 1 operation, or a stale response was applied after a newer one); distinct = the plan (exhaustive) / hash of the step script (random)",
 		Assumptions: []string{
-			"faults are placed on push-pull exchanges of clients that have completed a fault-free first sync (creation / subscription under faults is covered by C06, C08, C13)",
+			"in the enumerated plans faults are placed on exchanges of clients that have completed a fault-free first sync; half of the random histories also lose the response of entry (create / subscribe / subscribe-or-create) requests",
 			"MongoDB / MQTT are the in-memory stand-ins",
 		},
 		Trusted:    []string{"fakemongo", "fakemqtt", "harness transport (direct mode)", "monitors in /verif/harness"},
@@ -247,6 +247,54 @@ func (x *c07world) oracle() (string, string) {
 	return w.exactlyOnce()
 }
 
+// newC07WorldFaultyEntry is newC07World with the responses of some entry requests lost
+// (the client retries): creation and subscription under message faults.
+func newC07WorldFaultyEntry(c *core.Case, typ string, ncli int) (*c07world, string, string) {
+	w, err := newSvcWorld(c, "colA")
+	if err != nil {
+		return nil, "INCONCLUSIVE", "test bed did not start: " + err.Error()
+	}
+	x := &c07world{w: w, dts: map[*bed.Client]*bed.DT{}, held: map[*bed.Client][]*heldResp{}}
+	r := c.Rng
+	for i := 0; i < ncli; i++ {
+		cl := w.b.NewClient("colA", string(rune('A'+i)))
+		w.cls = append(w.cls, cl)
+		mode := bed.Subscribe
+		if i == 0 {
+			mode = bed.Create
+		}
+		if r.Intn(2) == 0 {
+			mode = bed.SubscribeOrCreate
+		}
+		d := cl.Open("k", typ, mode)
+		x.dts[cl] = d
+		if err := cl.Register(); err != nil {
+			return x, "INCONCLUSIVE", "register: " + err.Error()
+		}
+		if i == 0 || mode == bed.SubscribeOrCreate && false {
+			for j := 0; j < r.Intn(3); j++ {
+				w.localOp(d) // part of the creation
+			}
+		}
+		if r.Intn(2) == 0 {
+			if sig, msg := x.exchange(cl, fDrop); sig != "" {
+				return x, sig, msg
+			}
+			x.nt = true
+		}
+		for try := 0; try < 3 && d.DT.GetState() != model.StateOfDatatype_SUBSCRIBED; try++ {
+			if _, sig, msg := w.sync(cl); sig != "" {
+				return x, sig, msg
+			}
+			w.idle()
+		}
+		if d.DT.GetState() != model.StateOfDatatype_SUBSCRIBED {
+			return x, "entry-not-completed", fmt.Sprintf("client %d (%s) did not become subscribed after its entry response was lost and it retried", i, mode)
+		}
+	}
+	return x, "", ""
+}
+
 func newC07World(c *core.Case, typ string, ncli int) (*c07world, string, string) {
 	w, err := newSvcWorld(c, "colA")
 	if err != nil {
@@ -333,7 +381,11 @@ func c07Random(c *core.Case) *core.Result {
 	typ := crdt.Types[c.Index%4]
 	ncli := 2 + r.Intn(4)
 	c.Step("random type=%s clients=%d", typ, ncli)
-	x, sig, msg := newC07World(c, typ, ncli)
+	mk := newC07World
+	if c.Index%2 == 1 {
+		mk = newC07WorldFaultyEntry
+	}
+	x, sig, msg := mk(c, typ, ncli)
 	if x != nil {
 		defer x.w.close()
 	}
